@@ -946,16 +946,23 @@ impl<'a> BTreeCursor<'a> {
             return Ok(true);
         }
 
-        let next = page.right_sibling();
-        if next.as_u64() == 0 {
-            self.slot = count;
-            return Ok(false);
-        }
+        // Deletes never merge pages, so the chain may contain empty leaves: skip them
+        // instead of reporting the end of the scan.
+        loop {
+            let page = Page::new(&mut self.buf);
+            let next = page.right_sibling();
+            if next.as_u64() == 0 {
+                self.slot = page.cell_count() as u16;
+                return Ok(false);
+            }
 
-        self.leaf = next;
-        self.buf = self.pager.read_page(self.leaf)?;
-        self.slot = 0;
-        self.is_valid()
+            self.leaf = next;
+            self.buf = self.pager.read_page(self.leaf)?;
+            self.slot = 0;
+            if self.is_valid()? {
+                return Ok(true);
+            }
+        }
     }
 }
 
